@@ -263,6 +263,10 @@ class HttpPeer:
                 for st in pre:
                     chan.peer_push(f"HTTP/1.1 {st} Interim\r\n\r\n".encode(), delay)
             split = spec.get("split")  # [offset, extra delay]: the tail arrives later
+            if spec.get("split_head") is not None:  # the header block arrives, the whole body later
+                off = data.find(b"\r\n\r\n") + 4
+                if 4 <= off < len(data):
+                    split = [off, float(spec["split_head"])]
             if spec.get("split_embed") is not None:  # split exactly where the embedded message starts
                 off = data.find(EMBEDDED_RESPONSE, data.find(b"\r\n\r\n") + 4)
                 if off > 0:
